@@ -16,6 +16,7 @@ open ThriftVerif.Wire
 
 /-- one step of `Serve` on a stream that starts with a well-formed enveloped request. -/
 theorem serveN_env (f : Nat) (i : Impl) (gens : List GenAnswer) (e : Envelope) (he : EnvOK e)
+    (hreq : e.etype = 1 ∨ e.etype = 4)
     (hsz : (encEnvStrict e).length < 2 ^ 32) (tail : Bytes) (cs : Chunks)
     (hcs : cs.flatten = frame (encEnvStrict e) ++ tail) :
     ∃ rest, rest.flatten = tail ∧ serveN (f + 1) i gens cs =
@@ -28,7 +29,7 @@ theorem serveN_env (f : Nat) (i : Impl) (gens : List GenAnswer) (e : Envelope) (
   obtain ⟨rest, hr, hrest⟩ := readFrameT_frame fastPathFrameSize (encEnvStrict e) tail cs hsz hcs
   refine ⟨rest, hrest, ?_⟩
   have hr' : readFrame cs = .ok (encEnvStrict e) rest := hr
-  simp only [serveN, hr', envelope_roundtrip_strict e he]
+  simp only [serveN, hr', envelope_roundtrip_strict e he, if_pos hreq]
 
 def hsReq : Envelope := ⟨methodName .handshake, etCall, 1, handshakeArgs⟩
 def byeReq : Envelope := ⟨methodName .goodbye, etCall, 1, goodbyeArgs⟩
@@ -82,7 +83,7 @@ theorem serveN_genSession (i : Impl) (hsg : i.hasSG = true) (bodies : List WValu
       subst ha
       have hcs' : cs.flatten = frame (encEnvStrict byeReq) ++ junk := by
         simpa [genSession, frames] using hcs
-      obtain ⟨rest, _, hstep⟩ := serveN_env f i [] byeReq byeReq_ok.1 byeReq_ok.2 junk cs hcs'
+      obtain ⟨rest, _, hstep⟩ := serveN_env f i [] byeReq byeReq_ok.1 (Or.inl rfl) byeReq_ok.2 junk cs hcs'
       rw [List.map_nil, hstep]
       simp [byeReq, dispatch_goodbye]
   | cons b bs ih =>
@@ -95,7 +96,7 @@ theorem serveN_genSession (i : Impl) (hsg : i.hasSG = true) (bodies : List WValu
           simpa [genSession, frames] using hcs
         have hbo := hb b (by simp)
         obtain ⟨rest, hrest, hstep⟩ := serveN_env f i ((a :: as).map .files) (genReq b)
-          (genReq_ok b hbo) hbo.size _ cs hcs'
+          (genReq_ok b hbo) (Or.inl rfl) hbo.size _ cs hcs'
         rw [hstep]
         have hih := ih as (by simpa using hlen) (fun x hx => hb x (by simp [hx])) f (by simpa using hf)
           junk rest hrest
@@ -125,7 +126,7 @@ theorem conforming_plugin (i : Impl) (hsg : i.hasSG = true) (bodies : List WValu
     omega
   obtain ⟨n, hn⟩ : ∃ n, cs.flatten.length = n + 1 := ⟨cs.flatten.length - 1, by omega⟩
   rw [hn]
-  obtain ⟨rest, hrest, hstep⟩ := serveN_env (n + 1) i (answers.map .files) hsReq hsReq_ok.1 hsReq_ok.2 _ cs hcs'
+  obtain ⟨rest, hrest, hstep⟩ := serveN_env (n + 1) i (answers.map .files) hsReq hsReq_ok.1 (Or.inl rfl) hsReq_ok.2 _ cs hcs'
   rw [hstep]
   have := serveN_genSession i hsg bodies answers hlen hb (n + 1) (by omega) junk rest hrest
   simp [hsReq, dispatch_handshake, this]
